@@ -317,6 +317,15 @@ func (ex *Exec) calleeGhosts(spec *FuncSpec, info calleeInfo, env *Env) {
 			env.vars[cl.Name] = ex.freshVal("cg."+cl.Name, t)
 		}
 	}
+	// loop ghosts that the callee's postconditions mention (witnesses)
+	for _, l := range spec.Loops {
+		for _, cl := range l.Clauses {
+			if cl.Kind == "ghost" {
+				t := ex.V.specType(cl.Type, info.pkg)
+				env.vars[cl.Name] = ex.freshVal("cg."+cl.Name, t)
+			}
+		}
+	}
 }
 
 func (ex *Exec) checkCallPre(spec *FuncSpec, info calleeInfo, c *ssa.CallCommon, args []Val, pos token.Pos) {
